@@ -54,11 +54,13 @@ def run(tier):
     plans = []
     for impl in ('sync', 'async'):
         for mon in (False, True):
-            for dr in (False, True, 'cancel'):
-                cfg = {'ping_interval': 8, 'ping_timeout': 4, 'monitor': mon, 'disc_raises': dr}
+            for dr, et in ((False, 'type'), (True, 'runtime'), (True, 'type'), ('cancel', 'key')):
+                cfg = {'ping_interval': 8, 'ping_timeout': 4, 'monitor': mon, 'disc_raises': dr,
+                       'exc_type': et}
                 plans.append(dict(
                     what='random histories with every end cause, monitor=%s, disconnect handler '
-                         'raises=%s' % (mon, dr), impl=impl, cfg=cfg, nslots=2,
+                         'raises=%s, handler failures are %s' % (mon, dr, et), impl=impl, cfg=cfg,
+                    nslots=2,
                     scripts=core.random_scripts(seed + 1, n // 2, 30, 2, w, tstep=(1, 8))))
         plans.append(dict(what='pairs of end causes at the same instant, both orders', impl=impl,
                           cfg={'ping_interval': 8, 'ping_timeout': 4, 'monitor': True}, nslots=1,
